@@ -181,7 +181,7 @@ func (g *Gen) frameObligations(env *TEnv) {
 			continue
 		}
 		sk := g.fresh("frame_r", "Int")
-		conds := []string{fmt.Sprintf("(<= 0 %s)", sk), fmt.Sprintf("(< %s %s)", sk, refBound)}
+		conds := []string{fmt.Sprintf("(< 0 %s)", sk), fmt.Sprintf("(< %s %s)", sk, refBound)}
 		for _, t := range byComp[n] {
 			conds = append(conds, fmt.Sprintf("(not (= %s %s))", sk, t.ref))
 		}
